@@ -198,7 +198,7 @@ def split8 : Bytes → Option (Nat × Bytes)
 
 mutual
   /-- the value of an element of type `t`.  Fuel: one unit per value and per element of a document -/
-  def readVal : Nat → UInt8 → Bytes → Option (V × Bytes)
+  def readBVal : Nat → UInt8 → Bytes → Option (V × Bytes)
     | 0, _, _ => none
     | f + 1, t, inp =>
       if t = 0x0A then some (.null, inp)
@@ -233,19 +233,19 @@ mutual
         match split4 inp with
         | none => none
         | some (n, r) =>
-          match readElems f r with
+          match readBElems f r with
           | none => none
           | some (ms, rest) => if rest.length + n = r.length + 4 then some (.doc ms, rest) else none
       else if t = 0x04 then
         match split4 inp with
         | none => none
         | some (n, r) =>
-          match readItems f r with
+          match readBItems f r with
           | none => none
           | some (items, rest) => if rest.length + n = r.length + 4 then some (.arr items, rest) else none
       else none
   /-- `e_list` and the terminator of its document -/
-  def readElems : Nat → Bytes → Option (VMembers × Bytes)
+  def readBElems : Nat → Bytes → Option (VMembers × Bytes)
     | 0, _ => none
     | _ + 1, [] => none
     | f + 1, t :: r =>
@@ -255,16 +255,16 @@ mutual
         | none => none
         | some (k, r2) =>
           if validUtf8 k = true then
-            match readVal f t r2 with
+            match readBVal f t r2 with
             | none => none
             | some (v, r3) =>
-              match readElems f r3 with
+              match readBElems f r3 with
               | none => none
               | some (ms, rest) => some (.cons k v ms, rest)
           else none
   /-- the same for an array: the keys are read and dropped (the specification asks writers for "0", "1", …; readers go by
   position) -/
-  def readItems : Nat → Bytes → Option (VList × Bytes)
+  def readBItems : Nat → Bytes → Option (VList × Bytes)
     | 0, _ => none
     | _ + 1, [] => none
     | f + 1, t :: r =>
@@ -274,10 +274,10 @@ mutual
         | none => none
         | some (k, r2) =>
           if validUtf8 k = true then
-            match readVal f t r2 with
+            match readBVal f t r2 with
             | none => none
             | some (v, r3) =>
-              match readItems f r3 with
+              match readBItems f r3 with
               | none => none
               | some (items, rest) => some (.cons v items, rest)
           else none
@@ -286,7 +286,7 @@ end
 /-- a whole document and nothing after it (fuel: the length of the text; a value has no more nodes than its encoding
 has bytes, so the bound rejects nothing) -/
 def bsonDecode (doc : Bytes) : Option V :=
-  match readVal (doc.length + 1) 0x03 doc with
+  match readBVal (doc.length + 1) 0x03 doc with
   | some (v, rest) => if rest.isEmpty then some v else none
   | none => none
 
